@@ -316,6 +316,8 @@ func analysisWords(rng *rand.Rand, lang string, n int) []byte {
 			w = strings.Title(w) //nolint
 		case 2:
 			w = w + w
+		case 3: // runes whose lower-case form has another UTF-8 length
+			w = w + analysisWideWords[rng.Intn(len(analysisWideWords))]
 		}
 		sb.WriteString(w)
 		if i+1 < n {
@@ -1797,6 +1799,7 @@ func runAnalysis(o Opts) error {
 	e.docs(40 * scale)
 	e.merges(40 * scale)
 	e.composites(40 * scale)
+	e.retained(3 * scale)
 	e.matchRoundTrip(10 * scale)
 	if o.Thorough() {
 		e.sweep(8, 6, 60000, 600, 12)
